@@ -294,6 +294,21 @@ func c35(c *Ctx) {
 			for _, cs := range callsIn(bf, Callee(balp, cse+".CurrentState")) {
 				c.Expect(FieldLoad(fEv)(cs.Common().Args[0]), cs, bf, "own-evaluator", "state taken from a different evaluator")
 			}
+			// weighted target: in the READY arm only READY children feed the picker
+			if a.pkg == waggp {
+				n := 0
+				for _, in := range instrsWhere(bf, func(in ssa.Instruction) bool {
+					call, ok := in.(*ssa.Call)
+					return ok && BuiltinCall("append")(&call.Call)
+				}) {
+					if c.HasFact(in, Cmp(CallRes(Callee(balp, cse+".CurrentState"), 0), token.EQL, k("TransientFailure"))) {
+						continue // all children are in TF: every picker is used
+					}
+					n++
+					c.MustFact(in, "ready-arm-uses-only-ready-children", Cmp(FieldLoad(fAgg), token.EQL, k("Ready")))
+				}
+				c.Expect(n == 1, nil, bf, "ready-arm-collects", "expected one collection of READY children")
+			}
 			// conservation
 			for _, f := range c.scope(a.pkg) {
 				rts := callsIn(f, isRT)
